@@ -19,7 +19,8 @@ func (s SSTableMergeIteratorContext) Next() ([]byte, []byte, error) {
 	if errors.Is(err, Done) {
 		return nil, nil, pq.Done
 	}
-	return k, v, nil
+	// any other error needs to be passed on, otherwise a failing iterator is merged as an endless sequence of nil records
+	return k, v, err
 }
 
 func (s SSTableMergeIteratorContext) Context() int {
@@ -165,6 +166,9 @@ func (m SSTableMerger) MergeCompact(iterators []SSTableMergeIteratorContext, wri
 			}
 		}
 		err = writer.WriteNext(k, v)
+		if err != nil {
+			return fmt.Errorf("merge compact error while writing next record: %w", err)
+		}
 	}
 
 	return nil
